@@ -143,6 +143,67 @@ func findTokenMap(w *World, mustHaveKey int64) *tokenMap {
 			}
 		}
 	}
+	// a table written as a switch: func(token int) (operator, bool) { switch token { case T: return OP, true … } return 0, false }
+	for _, f := range w.FuncsIn(tp) {
+		if f.Body == nil || f.Lit != nil || f.Sig().Params().Len() != 1 {
+			continue
+		}
+		walkNoLit(f.Body, func(n ast.Node) bool {
+			sw, ok := n.(*ast.SwitchStmt)
+			if !ok || sw.Tag == nil || sw.Init != nil {
+				return true
+			}
+			tid := identOf(sw.Tag)
+			if tid == nil || info.Uses[tid] != types.Object(f.Sig().Params().At(0)) {
+				return true
+			}
+			tm := &tokenMap{fn: f, lit: &ast.CompositeLit{Lbrace: sw.Pos(), Rbrace: sw.End()}, entries: map[int64]int64{}, keyName: map[int64]string{}, valName: map[int64]string{}}
+			okAll := true
+			for _, cl := range sw.Body.List {
+				cc := cl.(*ast.CaseClause)
+				if cc.List == nil {
+					continue
+				}
+				if len(cc.Body) != 1 {
+					okAll = false
+					continue
+				}
+				ret, ok := cc.Body[0].(*ast.ReturnStmt)
+				if !ok || len(ret.Results) < 1 {
+					okAll = false
+					continue
+				}
+				val := unparen(ret.Results[0])
+				if u, ok := val.(*ast.UnaryExpr); ok && u.Op == token.AND {
+					val = unparen(u.X)
+				}
+				vt, ok := info.Types[val]
+				if !ok || vt.Value == nil || vt.Value.Kind() != constant.Int {
+					okAll = false
+					continue
+				}
+				v, _ := constant.Int64Val(vt.Value)
+				for _, kx := range cc.List {
+					kt, ok := info.Types[kx]
+					if !ok || kt.Value == nil || kt.Value.Kind() != constant.Int {
+						okAll = false
+						continue
+					}
+					k, _ := constant.Int64Val(kt.Value)
+					if _, dup := tm.entries[k]; dup {
+						tm.dups = append(tm.dups, exprStr(kx))
+					}
+					tm.entries[k] = v
+					tm.keyName[k] = exprStr(kx)
+					tm.valName[v] = exprStr(val)
+				}
+			}
+			if _, has := tm.entries[mustHaveKey]; has && okAll && len(tm.entries) >= 4 {
+				best = tm
+			}
+			return true
+		})
+	}
 	for _, rt := range roots {
 		f := rt.f
 		ast.Inspect(rt.node, func(n ast.Node) bool {
